@@ -121,6 +121,9 @@ def _body_pc(K, N, which, biased=False, labels="int"):
         if biased:
             # vacuity control: for the biased (N^2) estimator the negated identity must be SATISFIABLE
             r, _ = E._check(z3.Not(claim))
+            if r not in ("sat", "unsat"):
+                E.unknowns += 1               # solver gave up on the control: inconclusive, not a failed control
+                return (True, f"vacuity control undecided: {r}")
             return (r == "sat", f"vacuity control failed: negated biased identity is {r}")
         return (claim, f"E[{which}] identity for K={K}, N={N}")
     return body
@@ -149,6 +152,9 @@ def _body_pc2(K, N1, N2, biased=False, labels="int"):
         claim = z3.simplify(lhs == Spq * power(Sp, N1 - 1) * power(Sq, N2 - 1), som=True)
         if biased:
             r, _ = E._check(z3.Not(claim))
+            if r not in ("sat", "unsat"):
+                E.unknowns += 1
+                return (True, f"vacuity control undecided: {r}")
             return (r == "sat", f"vacuity control failed: {r}")
         return (claim, f"E[pc(a,b)] identity K={K} N1={N1} N2={N2}")
     return body
@@ -307,6 +313,10 @@ def conditions(tier):
     for lab, K, N in [("prefix", 3, 3), ("prefix-rev", 2, 4), ("mixed", 3, 3)] + ([("mixed", 4, 5), ("prefix", 5, 5)] if tier != "quick" else []):
         out.append(Condition(f"C06/E[pc]/labels={lab}/K={K}/N={N}", _body_pc(K, N, "pc", labels=lab), _replay_identity(K, N, "pc", lab),
                              budget=600, engine="SMT", info=info, bounds=f"all real p on {K} categories labelled {LABELS[lab][:K]}, {N} draws"))
+    # four categories: the two samples can show the same NUMBER of distinct categories, share the smallest and the largest, and still differ inside
+    for K, N1, N2 in [(4, 3, 3), (4, 2, 3)] + ([(4, 3, 4), (5, 3, 3), (4, 4, 4)] if tier != "quick" else []):
+        out.append(Condition(f"C06/E[pc2]/K={K}/N1={N1}/N2={N2}", _body_pc2(K, N1, N2), _replay_pc2(K, N1, N2), budget=900,
+                             engine="SMT", info=info, bounds=f"all real p, q on {K} categories, {N1} x {N2} draws"))
     out.append(Condition("C06/control-biased-pc2/K=2/N1=2/N2=2", _body_pc2(2, 2, 2, biased=True), _replay_true(), budget=300,
                          engine="SMT", info=info, bounds="vacuity control"))
     for K in range(1, 5):
